@@ -18,7 +18,14 @@ import (
 	"golang.org/x/tools/go/ssa/ssautil"
 )
 
-const repoDir = "/repo"
+// repoDir is the tree under check: /repo. VERIF_REPO redirects it to a scratch
+// worktree (used only when trying seeded changes; registered commands never set it).
+var repoDir = func() string {
+	if d := os.Getenv("VERIF_REPO"); d != "" {
+		return d
+	}
+	return "/repo"
+}()
 const repoMod = "github.com/furiko-io/furiko"
 
 type Engine struct {
